@@ -10,7 +10,7 @@ namespace CM.Scope
 
 mutual
 inductive Stmt where
-  | assign (n : String)
+  | assign (n : String) (eff : Bool)   -- `eff`: the right-hand side may have an effect (a call, `await`, `yield`, `:=`)
   | read (n : String)
   | scope (body : Body)
 inductive Body where
@@ -21,7 +21,7 @@ end
 /-- names assigned at this level -/
 def Body.assigns : Body → List String
   | .nil => []
-  | .cons (.assign n) t => n :: t.assigns
+  | .cons (.assign n _) t => n :: t.assigns
   | .cons _ t => t.assigns
 
 /-- reads of `n` at this level only (libcst: `scope.accesses[n]`) -/
@@ -37,7 +37,7 @@ def Body.refs (n : String) : Body → Nat
   | .nil => 0
   | .cons s t => s.refs n + t.refs n
 def Stmt.refs (n : String) : Stmt → Nat
-  | .assign _ => 0
+  | .assign _ _ => 0
   | .read m => if m = n then 1 else 0
   | .scope b => if n ∈ b.assigns then 0 else b.refs n
 end
@@ -48,7 +48,7 @@ def Body.unresolvedGo (bound : List String) : Body → List String
   | .nil => []
   | .cons s t => s.unresolvedGo bound ++ t.unresolvedGo bound
 def Stmt.unresolvedGo (bound : List String) : Stmt → List String
-  | .assign _ => []
+  | .assign _ _ => []
   | .read m => if m ∈ bound then [] else [m]
   | .scope b => b.unresolvedGo (b.assigns ++ bound)
 end
@@ -72,7 +72,7 @@ def Body.nestedL (n : String) : Body → Nat
   | .nil => 0
   | .cons s t => s.nestedL n + t.nestedL n
 def Stmt.nestedL (n : String) : Stmt → Nat
-  | .assign _ => 0
+  | .assign _ _ => 0
   | .read _ => 0
   | .scope b => if n ∈ b.assigns then b.readsBeforeLast n else b.ownReads n + b.nestedL n
 end
@@ -94,19 +94,31 @@ def Body.alive (m : Mode) (b : Body) (n : String) : Nat :=
 def Body.dead (m : Mode) (b : Body) : List String := b.assigns.filter fun n => b.alive m n == 0
 
 mutual
-/-- the pass: in every function-level body the assignments of its dead names are removed -/
-def Body.cleanGo (m : Mode) (dead : List String) : Body → Body
+/-- the pass: in every function-level body the assignments of its dead names are removed; with `guard`
+(the code now) an assignment whose right-hand side may have an effect stays -/
+def Body.cleanGo (m : Mode) (guard : Bool) (dead : List String) : Body → Body
   | .nil => .nil
   | .cons s t =>
     match s with
-    | .assign n => if n ∈ dead then t.cleanGo m dead else .cons (.assign n) (t.cleanGo m dead)
-    | _ => .cons (s.cleanS m) (t.cleanGo m dead)
-def Stmt.cleanS (m : Mode) : Stmt → Stmt
-  | .assign n => .assign n
+    | .assign n e => if n ∈ dead ∧ ¬(guard = true ∧ e = true) then t.cleanGo m guard dead else .cons (.assign n e) (t.cleanGo m guard dead)
+    | _ => .cons (s.cleanS m guard) (t.cleanGo m guard dead)
+def Stmt.cleanS (m : Mode) (guard : Bool) : Stmt → Stmt
+  | .assign n e => .assign n e
   | .read x => .read x
-  | .scope b => .scope (b.cleanGo m (b.dead m))
+  | .scope b => .scope (b.cleanGo m guard (b.dead m))
 end
 
-def Body.clean (m : Mode) (b : Body) : Body := b.cleanGo m (b.dead m)
+def Body.clean (m : Mode) (b : Body) (guard : Bool := true) : Body := b.cleanGo m guard (b.dead m)
+
+mutual
+/-- the right-hand sides that may have an effect, in source order (nested scopes included) -/
+def Body.effects : Body → List String
+  | .nil => []
+  | .cons s t => s.effects ++ t.effects
+def Stmt.effects : Stmt → List String
+  | .assign n e => if e then [n] else []
+  | .read _ => []
+  | .scope b => b.effects
+end
 
 end CM.Scope
